@@ -135,6 +135,16 @@ func (a *Analyzer) checkDurability(n *nodeState, r *ev.Rec) {
 
 // FSM -----------------------------------------------------------------------------
 
+// fsmFind reports a state-machine finding under C03 and, if the node has been
+// through snapshot activity (restore, installation, compaction) in this
+// incarnation, under C09 as well: those must be transparent.
+func (a *Analyzer) fsmFind(n *nodeState, rule, sig string, seq int64, format string, args ...interface{}) {
+	a.find("C03", rule, sig, seq, format, args...)
+	if n.snapTouched {
+		a.find("C09", "state-machine-wrong-after-snapshot-activity", "after-snapshot:"+rule, seq, format, args...)
+	}
+}
+
 func (a *Analyzer) onFsmUpdate(n *nodeState, r *ev.Rec) {
 	if n == nil {
 		return
@@ -142,7 +152,7 @@ func (a *Analyzer) onFsmUpdate(n *nodeState, r *ev.Rec) {
 	a.stat("fsm-updates")
 	cid := n.key.cid
 	if r.Pos != n.fsmLen+1 {
-		a.find("C03", "fsm-position-gap", "", r.Q, "%s (inc %d): update applied at position %d after %d", n.key, n.inc, r.Pos, n.fsmLen)
+		a.fsmFind(n, "fsm-position-gap", "", r.Q, "%s (inc %d): update applied at position %d after %d", n.key, n.inc, r.Pos, n.fsmLen)
 	}
 	n.fsmLen = r.Pos
 	n.fsmRoll = r.H
@@ -156,18 +166,18 @@ func (a *Analyzer) onFsmUpdate(n *nodeState, r *ev.Rec) {
 	}
 	if int(r.Pos) < len(g) {
 		if g[r.Pos] != r.Val {
-			a.find("C03", "state-machines-diverge", "", r.Q, "%s applies %q at position %d where another state machine applied %q", n.key, r.Val, r.Pos, g[r.Pos])
+			a.fsmFind(n, "state-machines-diverge", "", r.Q, "%s applies %q at position %d where another state machine applied %q", n.key, r.Val, r.Pos, g[r.Pos])
 		}
 	} else if int(r.Pos) == len(g) {
 		if p, dup := a.gPos[cid][r.Val]; dup {
-			a.find("C03", "update-applied-twice", "", r.Q, "%s applies %q at position %d; it was already applied at position %d", n.key, r.Val, r.Pos, p)
+			a.fsmFind(n, "update-applied-twice", "", r.Q, "%s applies %q at position %d; it was already applied at position %d", n.key, r.Val, r.Pos, p)
 			a.find("C07", "update-took-effect-twice", "", r.Q, "%q took effect at positions %d and %d", r.Val, p, r.Pos)
 		}
 		g = append(g, r.Val)
 		a.gRoll[cid] = append(a.gRoll[cid], ev.Roll(a.gRoll[cid][len(a.gRoll[cid])-1], r.Val))
 		a.gPos[cid][r.Val] = r.Pos
 	} else {
-		a.find("C03", "fsm-position-gap", "fsm-ahead-of-global", r.Q, "%s applies position %d while the global sequence has %d", n.key, r.Pos, len(g)-1)
+		a.fsmFind(n, "fsm-position-gap", "fsm-ahead-of-global", r.Q, "%s applies position %d while the global sequence has %d", n.key, r.Pos, len(g)-1)
 	}
 	a.g[cid] = g
 }
@@ -180,33 +190,33 @@ func (a *Analyzer) onApplied(n *nodeState, r *ev.Rec) {
 	e := r.E
 	cid := n.key.cid
 	if n.appliedIdx != 0 && e.Index != n.appliedIdx+1 {
-		a.find("C03", "applied-index-gap", "", r.Q, "%s (inc %d) applies index %d after %d", n.key, n.inc, e.Index, n.appliedIdx)
+		a.fsmFind(n, "applied-index-gap", "", r.Q, "%s (inc %d) applies index %d after %d", n.key, n.inc, e.Index, n.appliedIdx)
 	}
 	n.appliedIdx = e.Index
 	// only committed entries are applied
 	ci := a.committed[cid][e.Index]
 	if ci == nil {
 		if !a.Universe {
-			a.find("C03", "applied-entry-not-committed", "", r.Q, "%s applies entry (%d,t%d) which is not committed", n.key, e.Index, e.Term)
+			a.fsmFind(n, "applied-entry-not-committed", "", r.Q, "%s applies entry (%d,t%d) which is not committed", n.key, e.Index, e.Term)
 			a.find("C07", "uncommitted-update-exposed", "", r.Q, "%s applies entry (%d,t%d) which is not committed (visible to reads)", n.key, e.Index, e.Term)
 		}
 	} else if ci.term != e.Term || ci.hash != e.Hash {
-		a.find("C03", "applied-entry-differs-from-committed", "", r.Q, "%s applies (%d,t%d,%x), committed is (t%d,%x)", n.key, e.Index, e.Term, e.Hash, ci.term, ci.hash)
+		a.fsmFind(n, "applied-entry-differs-from-committed", "", r.Q, "%s applies (%d,t%d,%x), committed is (t%d,%x)", n.key, e.Index, e.Term, e.Hash, ci.term, ci.hash)
 	}
 	if e.Typ == ev.TypUpdate {
 		if !n.hasFsmVal || ev.Hash([]byte(n.lastFsmVal)) != e.Hash {
-			a.find("C03", "update-not-fed-to-state-machine", "", r.Q, "%s applied update entry %d without feeding its command to the state machine (last fed %q)", n.key, e.Index, n.lastFsmVal)
+			a.fsmFind(n, "update-not-fed-to-state-machine", "", r.Q, "%s applied update entry %d without feeding its command to the state machine (last fed %q)", n.key, e.Index, n.lastFsmVal)
 		} else {
 			gi := a.gIndex[cid]
 			if old, ok := gi[n.lastFsmPos]; ok && old != e.Index {
-				a.find("C03", "position-maps-to-two-indexes", "", r.Q, "position %d is log index %d on %s but %d elsewhere", n.lastFsmPos, e.Index, n.key, old)
+				a.fsmFind(n, "position-maps-to-two-indexes", "", r.Q, "position %d is log index %d on %s but %d elsewhere", n.lastFsmPos, e.Index, n.key, old)
 			}
 			gi[n.lastFsmPos] = e.Index
 		}
 		n.hasFsmVal = false
 	} else if n.hasFsmVal {
 		// an update command was fed for a non-update entry
-		a.find("C03", "non-update-entry-fed-to-state-machine", "", r.Q, "%s fed %q to the state machine for entry %d of type %d", n.key, n.lastFsmVal, e.Index, e.Typ)
+		a.fsmFind(n, "non-update-entry-fed-to-state-machine", "", r.Q, "%s fed %q to the state machine for entry %d of type %d", n.key, n.lastFsmVal, e.Index, e.Typ)
 		n.hasFsmVal = false
 	}
 }
